@@ -1,5 +1,6 @@
 import TypstyleModel.Props.C07
 import TypstyleModel.Proofs.Monad
+import TypstyleModel.Proofs.MathSeq
 /-! C09 — white space in math is neither created, removed nor converted (printer side).
 `convert_math` walks the children of a `Math` node in order; the theorems say what each kind of
 child contributes, and that nothing is inserted between two children. -/
@@ -69,5 +70,20 @@ theorem C09_attach_keeps_space_after_hashed_ident (e : Env) (r : Rec) (c : Ctx) 
 theorem C09_root_drops_space (e : Env) (r : Rec) (c : Ctx) (node : ANode) (hx : isExpr node = false) (h : node.kind = .space) :
     rootProducer e r () c node = pure ((), none) := by
   simp [rootProducer, hx, h]
+
+/-- T9.1 (the whole `Math` node): the document `convert_math` returns is the concatenation, in source
+order, of exactly one piece per child — nothing before, between or after them — and the piece of a
+white-space child is one hard line break if the token held a line break and one blank otherwise
+(`MathPiece`; comments, `#` and delimiters are copied; an expression child contributes its own
+conversion).  So between two adjacent math atoms the document has white space iff the source had a
+token there, and a line break iff that token had one — for every `Math` node, whatever its children. -/
+theorem C09_math_document_is_the_sequence_of_its_children (e : Env) (r : Rec) (ctx : Ctx) (n : ANode)
+    (h : n.attrs.disabled = false) :
+    Post (convMath e r ctx n) (fun d => ∃ pieces, Pieces e n.children pieces ∧ pieces.length = n.children.length ∧
+      d = Twin.concatDocs pieces) := by
+  rw [C09_math_suppresses_breaks e r ctx n h]
+  refine Post.bind (Q := fun _ => True) (fun _ _ _ _ => trivial) (fun _ _ => ?_)
+  refine Post.bind (math_fold_pieces e r ctx.suppress n.children) (fun acc ⟨ps, hps, hacc⟩ => ?_)
+  exact Post.pure ⟨ps, hps, hps.length, hacc⟩
 
 end Typstyle
